@@ -156,10 +156,17 @@ CLAIMED["C14"] = dict(
          "queueing/unlimited nodes conserve the message multiset for every interleaving; wait vertex 0 implies no body running, nothing in "
          "transit, no reservation open; no body after cancel. Tie: the concurrency tests/updates are re-extracted from the source into the "
          "model, real node classes run on a scripted mock of the runtime and are compared line by line with the Lean interpreter, "
-         "real-thread runs on 11 topology families with independent monitors.",
-    note="Trusted: Lean kernel, standard axioms, harness/c14 (mock r1 + real runs), source extractor, sampled correspondence. async_node "
-         "gateway lifetime and try_put_and_wait metainfo are monitored, not modelled; atomicity of node operations rests on the aggregator.",
-    technique="Lean 4 proof (node machines + fine-grained network machine, multiset conservation invariants) + regenerated guards + scripted differential",
+         "real-thread runs on 13 topology families with independent monitors. Session 3: the one-reservation-per-cache protocol of "
+         "limiter_node / input_node with any number of concurrent forward attempts (single owner, consumed iff delivered, a failed attempt "
+         "touches nothing), the wait tree with async-gateway references (wait_for_all cannot return over an open reserve_wait or a "
+         "foreign-created task), try_put_and_wait metainfo reference counting (returns after all descendants, ignores unrelated messages), "
+         "the precise post-cancellation statement; each model is parametrised by flags regenerated from the source and the theorems are "
+         "instantiated at them by decide; the real limiter and the real wait_context_vertex / reference_vertex also run under the "
+         "controlled scheduler with ownership monitors and per-access replay.",
+    note="Trusted: Lean kernel, standard axioms, harness/c14 (mock r1 + real runs + controlled-scheduler harnesses), source extractors, "
+         "sampled correspondence. Sender contracts of the real buffers are C15's; the dispatcher wait loop is C01 / C02's; multifunction "
+         "ports, async gateways and limiter decrementers do not propagate metainfo.",
+    technique="Lean 4 proof (node machines, network machine, flag-parametrised interleaving models with inductive invariants) + regenerated guards/skeletons + scripted differential + controlled-scheduler replay",
     design="§3 C14")
 
 CLAIMED["C01"] = dict(
@@ -207,11 +214,17 @@ CLAIMED["C02"] = dict(
          "and no publisher in flight; wait_context sleep protocol; x86-TSO store-buffer model of the 1x1 monitor: no lost wake-up under "
          "fencesOK(orders), with kernel-checked necessity witnesses for the sleeper's and the notifier's fence, where the orders table is "
          "regenerated from the memory orders observed in the E-SHIM trace. Tie: the real monitor/semaphore/flag/wait_context run under "
-         "E-SHIM with access-level replay (random + DFS), whole-runtime sleep/enqueue/blocking-queue/mutex scenarios with deadlock detection.",
+         "E-SHIM with access-level replay (random + DFS), whole-runtime sleep/enqueue/blocking-queue/mutex scenarios with deadlock detection. "
+         "Client protocols embedded on the proved monitor: concurrent_bounded_queue blocking push/pop (tickets, capacity, predicate_leq, abort: "
+         "blocked operations complete in clean histories, abort wakes all in every history), arena::enqueue_task / out_of_work / mandatory "
+         "concurrency (with an enqueued task at quiescence the registered demand is >= 1 even with soft limit 0; exact accounting), "
+         "task_arena::execute slot waits (a completed delegated task wakes its waiter; no slot release is missed between the re-check and "
+         "commit_wait) - each replayed access by access on the real code, with state-guided schedules through the re-check / commit window.",
     note="Trusted: Lean kernel, standard axioms (TSO closure by decide +kernel, no native_decide), E-SHIM runtime, harness/c02, sampled "
          "correspondence. OS futex and RML thread start are emulated/not modelled; 'enqueued work eventually runs' is proved up to 'demand "
-         "is registered and parked threads are notified'.",
-    technique="Lean 4 proof (N x M inductive invariant; finite TSO closure; regenerated memory-order table) + E-SHIM trace replay + deadlock detection",
+         "is registered and parked threads are notified'. The bounded-queue theorem assumes `clean` (the C09 findings excluded); the execute "
+         "hand-over after parking is not claimed: known finding execute-wakeup-absorbed-by-entering-waiter, demonstrated on every run.",
+    technique="Lean 4 proof (N x M inductive invariant; finite TSO closure; embedded-monitor client models BQ / AE / EX; regenerated memory-order table) + E-SHIM trace replay + state-guided schedules + deadlock detection",
     design="§3 C02")
 CLAIMED["C09"] = dict(
     text="Lean 4 theorems for any number of threads and all schedules of the ticket protocol (one step per atomic access): lane mapping is a "
@@ -262,11 +275,17 @@ CLAIMED["C04"] = dict(
          "context is marked only if a cancel call won on it or an ancestor; one winner; sticky until reset. Closed negation witnesses show "
          "the statement fails when either fact is false (the two defects that were repaired). Tie: E-SHIM on the whole instrumented "
          "runtime, white-box bind/cancel/destroy programs whose context/epoch/mutex traces replay step by step on the model, natural nested "
-         "parallel_for runs, state-guided schedules that reproduce the defect windows deterministically.",
+         "parallel_for runs, state-guided schedules that reproduce the defect windows deterministically. Session 3: the reach theorem now "
+         "covers programs with reset (the ordered stores of reset() are regenerated and performed store by store; ghost stamps say which "
+         "cancellation is current) and a dynamic registry (threads register mid-run and exit): everything bound beneath a currently "
+         "cancelled context is cancelled unless it, or a context on the path, was reset after the win or sits in an exited thread's list; "
+         "the may_have_children hint is never cleared while a child is registered; reset changes only its own context; closed witnesses for "
+         "a hint-clearing reset and for the orphaned list.",
     note="Trusted: Lean kernel, standard axioms, source extractor in checks/c04.py, E-SHIM runtime, harness/c04, sampled correspondence. "
-         "Sequentially consistent interleavings (the TSO side condition on the relaxed accesses of the binding fast path is not modelled); "
-         "thread registry fixed during a run; reach theorem excludes concurrent reset (API forbids it).",
-    technique="Lean 4 proof (inductive invariant over the epoch/list protocol, parameterised by regenerated lock facts) + E-SHIM trace replay",
+         "Sequentially consistent interleavings (the TSO side condition on the relaxed accesses of the binding fast path is not modelled). "
+         "Contexts in an exited thread's orphaned list are not reached by cancellation in the code: known finding, reproduced through the "
+         "public API.",
+    technique="Lean 4 proof (inductive invariant over the epoch/list protocol with ghost stamps, parameterised by regenerated lock and reset facts) + E-SHIM trace replay + op-stamp monitors + sequential-spec oracle",
     design="§3 C04, §4 F2")
 CLAIMED["C10"] = dict(
     text="Lean 4 theorems for any hash function, any number of threads/programs and every schedule of the hash-map machine (one step per lock "
@@ -289,11 +308,15 @@ CLAIMED["C12"] = dict(
          "levels are sorted CAS lists with level l+1 within level l (sub-sequence proved for unique containers, partial for multi) and a "
          "search from any level finds the level-0 lower bound. Tie: generated constants and memory orders, exhaustive/boundary differential "
          "of the bit arithmetic, E-SHIM lock-step replay of every next-pointer/bucket/height access of the 8 real containers, independent "
-         "monitors, random + DFS schedules.",
-    note="Trusted: Lean kernel, standard axioms, E-SHIM, harness/c12, sampled correspondence. skiplist_levels_sublists is _partial for multi "
-         "containers (checked on every replayed trace instead). Observations recorded, not claimed as violations: skip-list insert "
-         "busy-waits on max_height; count() of multi containers can over-report under concurrent inserts.",
-    technique="Lean 4 proof (CAS-list system invariants lifted to split-order and skip-list systems) + E-SHIM lock-step replay",
+         "monitors, random + DFS schedules. Session 3: user functors that throw (comparator, hasher, key_equal, element constructor, "
+         "allocator) are part of the programs the theorems quantify over: no dead node is ever reachable, nothing is freed twice, list "
+         "invariants hold after a throwing insert (over the delete-on-throw policy regenerated from the source); skip-list level structure "
+         "proved for multi containers too; count() of multi containers bounded. Fault schedules (k-th functor call throws, for every k, "
+         "hold-point sweeps) with a deallocation-time reachability ledger, replayed on the models.",
+    note="Trusted: Lean kernel, standard axioms, E-SHIM, harness/c12, sampled correspondence. Observations recorded, not claimed as "
+         "violations: inserts that throw before the link leak their node; after a post-link comparator throw size() is one short; count() "
+         "of multi containers can over-report under concurrent inserts (bounded); skip-list insert busy-waits on max_height.",
+    technique="Lean 4 proof (CAS-list system invariants lifted to split-order and skip-list systems; fault annotations as program ops) + regenerated handler classification + E-SHIM lock-step replay + fault schedules",
     design="§3 C12")
 
 CLAIMED["C13"] = dict(
